@@ -4861,12 +4861,13 @@ class Symbol:
         if self._defaults_resolved:
             return
 
-        if self._sdkconfig_value is None and self._user_value is None and not self.choice:
-            # Not present in sdkconfig (e.g. a symbol added in a newer Kconfig), so there is nothing to compare.
-            # A symbol that depends on this one still needs the symbols *this* one depends on to be resolved
-            # first, otherwise it would be judged under their Kconfig defaults instead of their stored ones.
+        if (self._sdkconfig_value is None or self._user_value is not None) and not self.choice:
+            # Not present in sdkconfig (e.g. a symbol added in a newer Kconfig) or set by the user, so there is
+            # nothing to compare. A symbol that depends on this one still needs the symbols *this* one depends
+            # on to be resolved first (a 'select' outranks even a user value), otherwise it would be judged
+            # under their Kconfig defaults instead of their stored ones.
             self._defaults_resolved = True
-            for sc in self.dependencies:
+            for sc in self.dependencies | self._reverse_dependency_items():
                 if not sc.is_constant:
                     sc.resolve_defaults()
             return
@@ -4881,7 +4882,7 @@ class Symbol:
         if self._user_value is not None or self._sdkconfig_value is None or self.resolve_vis() == 0:
             return
 
-        for sc in self.dependencies:
+        for sc in self.dependencies | self._reverse_dependency_items():
             # constant symbols have their fixed value and are free - no need to check them
             if sc.is_constant:
                 continue
@@ -4938,6 +4939,23 @@ class Symbol:
                 )
 
         self._defaults_resolved = True
+
+    def _reverse_dependency_items(self) -> Set[Union["Symbol", "Choice"]]:
+        """
+        Symbols and choices whose value reaches this symbol through select / imply / set / set default.
+        They are not part of 'dependencies', but the value of this symbol depends on them just the same.
+        """
+        items = expr_items(self.rev_dep) | expr_items(self.weak_rev_dep)
+        for value, cond, source in self.rev_values + self.weak_rev_values:
+            items |= expr_items(cond)
+            items.add(source)
+            items.add(value)
+        # A choice the user has picked has nothing to resolve (and must not be touched from here)
+        return {
+            item
+            for item in items
+            if not item.is_constant and not (isinstance(item, Choice) and item._user_selection is not None)
+        }
 
     def resolve_vis(self) -> int:
         """
